@@ -44,7 +44,7 @@ Do(e, t2, p2, c2) ==
   /\ sid' = TLCGet(1)
   /\ TLCSet(1, TLCGet(1) + 1)
   /\ PrintT("EDGE " \o ToString(sid) \o " " \o ToString(TLCGet(1) - 1) \o " " \o
-            ToJson(e.a @@ [exp |-> IF e.res = "ok" THEN "ok" ELSE e.err]))
+            ToJson(e.a @@ [exp |-> IF e.res = "ok" THEN "ok" ELSE e.err, obs |-> [fee |-> post.fee, groups |-> post.groups]]))
 
 Tick(d) == Do(Ev("tick", [op |-> "tick", dt |-> d], TRUE, ""), now + d, ps, cache)
 Pause ==
